@@ -47,9 +47,9 @@ the search found no input violating *that* property, and it printed
 an operation with the changed code. For the round-6 changes (`-7`, `-8`) only the own
 property's check was run, so their other columns are empty. Rows for rounds 1-3 were produced before the last
 improvements (C04-1 now yields a failing input through the mutation search). After the last
-changes to the machinery (hardening of `check`, new conclusion checks) all 120 changes were
-run once more against their own property's quick check: each is reported with a concrete
-failing input.
+changes to the machinery (hardening of `check`, new conclusion checks, the round-6 generator
+work) all 136 changes were run once more against their own property's quick check: 134 are
+reported with a concrete failing input; C01-7 and C01-8 (round 6, see below) are not reported.
 
 %s
 **Round 6: changes built to evade random testing.** Eight agents (C01 C02 C03 C06 C07 C09 C10
